@@ -433,6 +433,17 @@ bool check_time_range(struct uftrace_time_range *range, uint64_t timestamp)
 	return true;
 }
 
+/* the end of the time range as a timestamp: an elapsed time counts from the first record */
+uint64_t time_range_stop(struct uftrace_time_range *range)
+{
+	uint64_t stop = range->stop;
+
+	if (stop && range->stop_elapsed)
+		stop += range->first;
+
+	return stop;
+}
+
 static int get_digits(uint64_t num)
 {
 	int digits = 0;
